@@ -173,6 +173,19 @@ the count the module's cache vectors are created with. -/
 theorem C13_slot_disjoint (n : Nat) : (emitIds n).1.Nodup ∧ ∀ i ∈ (emitIds n).1, i < (emitIds n).2 := by
   simp [emitIds, List.nodup_range]
 
+/-- **C13_slot_disjoint_continued.** A compile that continues a module's numbering
+(`CacheIdEmitter::new`, the REPL's later entries) hands out ids that are pairwise distinct, not below
+the ids handed out before — so distinct from every earlier site's — and below the count the vectors
+are grown to; starting at 0 it is `emitIds`.  (The whole-session statement is C19's
+`C19_cache_ids_consecutive`.) -/
+theorem C13_slot_disjoint_continued (start n : Nat) :
+    (emitIdsFrom start n).1.Nodup ∧ (∀ i ∈ (emitIdsFrom start n).1, start ≤ i ∧ i < (emitIdsFrom start n).2) ∧
+    emitIdsFrom 0 n = emitIds n := by
+  refine ⟨List.nodup_range' (step := 1), ?_, ?_⟩
+  · intro i hi
+    simpa [emitIdsFrom, List.mem_range'_1] using hi
+  · simp [emitIdsFrom, emitIds, List.range_eq_range']
+
 /-- **C13_witness_address_reuse** (envelope E13): if a cached class address is later occupied by a
 *different* class (the caches are not traced, so the class may be collected), the cached site reads
 the old class's slot: transparency needs "no cached address is reused" — settled on the
